@@ -28,6 +28,9 @@ CLAIMED = {
  "C07": ("retention analysis: no slice-typed caller value (nor a loop-reused scratch buffer) reaches receiver storage in AppendColumns/AppendEach, with type-resolved per-method retention summaries; clone deep-freshness as C05; per-iteration allocation rule for slices installed inside loops (AppendColumns/AppendEach, Flush)",
          "Decides the 'without retaining the caller's buffers' clause for the seven append methods and the 'Clone is deep' clause. Row/column view equality, Delete/Flush/Subseq semantics and consensus are value-level and not decided. Also decides that columns/rows installed in a loop are not carved from a shared buffer.",
          "append(dst, xs...) copies elements; it retains xs only when the elements are themselves slices", "DESIGN.md §2.F, §4/C07"),
+ "C08": ("offset/letter agreement analysis of every DP transition (table cell + matrix entry) in fill recurrences and traceback tests on SSA; dimension (stride) analysis of matrix subscripts; typed-AST sibling comparison",
+         "Decides necessary conditions of the recurrences computing optimal scores: in all twelve align functions every transition pairs the predecessor offset with the letters it consumes (diag: both, up: reference only, left: query only), rows/columns of the flattened matrix are selected by the right sequence, and the Letters/QLetters variants are the same program. Optimality itself — a maximum over exponentially many alignments, border values, tie-breaking, affine layer logic — is value-level and not decided.",
+         "p = i*c+j addresses row i (reference), column j (query) of the DP table", "DESIGN.md §2.H/I, §4/C08 (Part II §13)"),
  "C09": ("typed-AST sibling comparison of the generated Letters/QLetters aligner variants; sibling agreement on argument validation; SSA sign-check (dominance) analysis of letter-index values before subscript use; linear-form proof that validation loops sweep the whole sequence; dimension (stride) analysis of flattened-matrix subscripts",
          "Decides that the six Letters/QLetters variant pairs are the same program modulo element access (type independence), that all twelve variants and six entry points perform the full argument validation, and that no letter index can be used as a subscript before its sign was checked (illegal letters give an error, not a panic). Path monotonicity, score bookkeeping and Format are value-level and not decided. Also decides that reference-letter indices select rows and query-letter indices columns of the flattened matrix in every subscript.",
          "alphabet.Index holds -1 for letters outside the alphabet; a validation loop's bounds are not checked", "DESIGN.md §2.H/I, §4/C09"),
@@ -64,7 +67,6 @@ CLAIMED = {
 }
 
 NOT_APPLICABLE = {
- "C08": "optimality is a maximum over exponentially many alignments for every input and matrix; no dominance/flow/ownership fact is a necessary condition of it and matching the recurrence text would be a frozen fragment (DESIGN.md §4/C08)",
  "C16": "connected-component structure and order independence are properties of interval-tree contents at run time; the one structural candidate has a behaviour-preserving alternative the rule would flag (DESIGN.md §4/C16)",
 }
 
